@@ -124,6 +124,24 @@ def gen_constants():
     return o
 
 
+def gen_file(cmd, rel, args=None):
+    """Translator G (second kind): run harness/cmd/<cmd> on the SOURCE of the tree under test and
+    (re)write coq/theories/<rel> with what it prints."""
+    exe = build_go(cmd)
+    rc, o = sh([exe] + (args or []), timeout=120)
+    if rc != 0:
+        raise CheckError("G." + cmd, o)
+    path = os.path.join(COQ, "theories", rel)
+    with Lock("coq"):
+        old = open(path).read() if os.path.exists(path) else None
+        if old != o:
+            os.makedirs(os.path.dirname(path), exist_ok=True)
+            with open(path, "w") as f:
+                f.write(o)
+            log("%s rewritten by translator %s" % (rel, cmd))
+    return o
+
+
 def coq_project():
     """(Re)generate _CoqProject and Makefile from the theories present."""
     files = []
@@ -354,6 +372,8 @@ def engine(prop, tier, seed):
     # 1. translator G + model build
     try:
         gen_constants()
+        for g in getattr(prop, "translators", []):
+            g()
         cmd, dt = coq_make(prop.vo_check)
         checker_cmds.append(cmd)
     except CheckError as e:
@@ -432,6 +452,21 @@ def engine(prop, tier, seed):
     # specification (and was reported or is a listed finding).
     explained = {f["case"] for f in spec_fails}
     mism_unexplained = [m for m in mism if m["case"] not in explained]
+    if nviol == 0 and broken and hasattr(prop, "model_search"):
+        # a theorem about the model regenerated from the source no longer checks: look for a history of that
+        # model on which the property fails (report only; the search decides nothing)
+        try:
+            w = prop.model_search(broken)
+        except Exception as e:      # the search is best effort
+            log("model search failed: %r" % (e,))
+            w = None
+        if w:
+            path = write_replay(pid, seed, {"property": pid, "kind": "property fails on the model regenerated from the source",
+                                            "signature": w.get("signature"), "model_history": w,
+                                            "broken_obligations": [b.obligation for b in broken],
+                                            "details": [b.detail[-1500:] for b in broken]}, tag="_model")
+            emit_violation(pid, path)
+            nviol += 1
     if nviol == 0 and (broken or mism_unexplained):
         mism = mism_unexplained or mism
         first = cases[mism[0]["case"]] if mism else None
